@@ -508,6 +508,7 @@ package tcell
 //@   initonly dottedUnder dashedUnder underColor underRGB underFg cursorStyles cursorRGB cursorFg
 //@   initonly setTitle saveTitle restoreTitle setClipboard
 //@   confined keytimer keyexpire
+//@   serial encoder tty:Write
 //@   channel finiOnce wg Mutex lifecycle
 //@   initfuncs Init initialize NewTerminfoScreenFromTtyTerminfo prepareKeys prepareKeyMod prepareKeyModReplace prepareKeyModXTerm prepareKey
 //@   initfuncs prepareXtermModifiers prepareBracketedPaste prepareUnderlines prepareExtendedOSC prepareCursorStyles buildAcsMap nColors
@@ -517,6 +518,7 @@ package tcell
 //@ lockclass simscreen
 //@   guarded physw physh fini style front back clear cursorx cursory cursorvis mouse paste fillchar fillstyle fallback title clipboard
 //@   initonly evch quit charset encoder decoder
+//@   serial encoder
 //@   channel Screen Mutex
 //@   initfuncs Init NewSimulationScreen
 //@   entry InjectKeyBytes InjectKey InjectMouse GetContents GetCursor GetTitle GetClipboardData
